@@ -158,5 +158,10 @@ def evaluate(progs, want_build=True, want_run=True, keep=False, vet=False):
 
 
 def gen_batch(n, opts, tag=""):
-    rng = random.Random(seed() * 7919 + hash(tag) % 1000)
-    return [G.gen_prog(rng, "p%s%d" % (tag, k), opts) for k in range(n)]
+    rng = random.Random(seed() * 7919 + sum(ord(c) * (i + 1) for i, c in enumerate(tag)) % 1000)
+    progs = [G.gen_prog(rng, "p%s%d" % (tag, k), opts) for k in range(n)]
+    if opts.get("adversarial"):
+        from . import e2e_names
+        for p in progs:
+            e2e_names.adversarial(rng, p)
+    return progs
